@@ -1,6 +1,7 @@
 mod fmt;
 mod gen;
 mod ops;
+mod large;
 mod oracle;
 mod pgen;
 mod catalogue;
@@ -17,6 +18,20 @@ mod tables;
 
 use std::io::{BufRead, Write};
 
+/// Result lines longer than 100,000 characters are printed as their first 2,000 characters plus
+/// length and FNV-1a hash (the model driver does the same), so that a decoder which starts
+/// returning 256 MB packets cannot exhaust the memory of the comparison.
+fn clip(s: String) -> String {
+    if s.len() <= 100_000 {
+        return s;
+    }
+    let mut h: u64 = 0xcbf29ce484222325;
+    for b in s.as_bytes() {
+        h = (h ^ (*b as u64)).wrapping_mul(0x100000001b3);
+    }
+    format!("{} ...clipped len={} fnv={}", &s[..2000], s.len(), h)
+}
+
 fn main() {
     let args: Vec<String> = std::env::args().collect();
     let cmd = args.get(1).map(|s| s.as_str()).unwrap_or("");
@@ -27,17 +42,21 @@ fn main() {
         "run" => {
             // ops on stdin, one result line per op on stdout
             std::panic::set_hook(Box::new(|_| {}));
-            let stdin = std::io::stdin();
+            // ops from the file named by the next argument, else from stdin
+            let input: Box<dyn BufRead> = match args.get(2) {
+                Some(path) => Box::new(std::io::BufReader::new(std::fs::File::open(path).expect("ops file"))),
+                None => Box::new(std::io::BufReader::new(std::io::stdin())),
+            };
             let stdout = std::io::stdout();
             let mut out = std::io::BufWriter::new(stdout.lock());
-            for line in stdin.lock().lines() {
+            for line in input.lines() {
                 let line = line.unwrap();
                 let line = line.trim();
                 if line.is_empty() {
                     continue;
                 }
                 let res = ops::run_op_caught(line);
-                writeln!(out, "{}", res).unwrap();
+                writeln!(out, "{}", clip(res)).unwrap();
             }
         }
         "gen" => {
@@ -68,7 +87,14 @@ fn main() {
                 "C13" => oracle::c13(tier, seed, ops),
                 "C04" => oracle::c04(tier, seed, ops),
                 "C20" => oracle::c20(tier, seed, ops),
-                "C01" | "C02" | "C03" | "C05" | "C06" | "C07" | "C08" | "C09" | "C11" | "C12" | "C14" => oracle::packet_oracle(prop, tier, seed, ops),
+                "C01" | "C02" | "C03" | "C05" | "C06" | "C07" | "C08" | "C09" | "C11" | "C12" | "C14" => {
+                    let mut rep = oracle::packet_oracle(prop, tier, seed, ops);
+                    if ops.is_none() {
+                        // the same property on packets of 64 KiB .. 256 MiB (the corpus above stays < 200 KB)
+                        large::large(&mut rep, prop, tier == "thorough", seed);
+                    }
+                    rep
+                }
                 "C17" => oracle::c17(tier, seed, ops),
                 "C18" => oracle::c18(tier, seed, ops),
                 other => {
